@@ -8,7 +8,7 @@ is isolated from decryption):
   layer W  initial sequence numbers that make the sequence space wrap at every byte of the stream
 End to end (real decryption through run()):
   layer E  per version class: segmentations, single duplicates, adjacent transpositions,
-           displacements by 2, wrapping ISNs - differential against the in-order capture
+           displacements by 2, wrapping ISNs, full-duplex merges of the two directions (<=3 context switches) - against the peer model's plaintext
 C08's prefix clause is asserted in every non-terminal state of layer B (reported by C08 too).
 """
 import itertools
@@ -65,10 +65,11 @@ def cases(tier, seed):
     q = tier == "quick"
     for lens in streams(12 if q else 17):
         yield {"layer": "A", "lens": list(lens)}
-    bstreams = [(0, 1), (1, 3), (3, 0), (0, 0, 0)] if q else [(0, 1), (1, 3), (3, 0), (0, 0, 0), (1, 0, 3), (3, 3)]
+    # (24,): a record whose outstanding part is longer than everything the other direction still sends
+    bstreams = [(0, 1), (1, 3), (3, 0), (0, 0, 0), (24,)] if q else [(0, 1), (1, 3), (3, 0), (0, 0, 0), (1, 0, 3), (3, 3), (24,), (1, 24)]
     for lens in bstreams:
         L = sum(5 + l for l in lens)
-        maxseg = 3 if q else 4
+        maxseg = (3 if q else 4) if L < 20 else 3
         for k in range(1, maxseg):
             combos = list(itertools.combinations(range(1, L), k))
             for i in range(0, len(combos), 40):
@@ -360,7 +361,7 @@ def run_e(case):
     fails, nontriv, outcomes = [], [], set()
     n = 0
 
-    def run_pk(pk, sig):
+    def run_pk(pk, sig, conn=conn):
         nonlocal n
         pk = cap.stamp([p.copy() for p in pk], {0: ends})
         res = scen.run(pk, conn.keylog)
@@ -424,6 +425,22 @@ def run_e(case):
                    "early_segment_ends_at_record_boundary": early.end in bounds[early.dir],
                    "first_segment_of_direction_displaced": first_of_dir}
             run_pk(pk, sig)
+    # full duplex: both sides write at the same time - every merge of the two directions' packet sequences (from the first
+    # application packet on) with at most 3 context switches; records span segments, and the other side's last segments
+    # are captured while a record is incomplete
+    from .c04 import merges_n
+    conn2 = scen.tls_conn(dict(scn, history=[("c", 40), ("s", 400), ("c", 900), ("s", 30), ("s", 1), ("c", 5)]), seed, key=("duplex",))
+    base2 = scen.tls_packets(conn2, mss=300)
+    start = scen.first_app_packet(conn2, base2)
+    head, tail = base2[:start], base2[start:]
+    lists = [[p for p in tail if p.dir == "c"], [p for p in tail if p.dir == "s"]]
+    for sched in merges_n(lists, 3 if case.get("tier") == "quick" else 5):
+        pos = [0, 0]
+        pk = list(head)
+        for i in sched:
+            pk.append(lists[i][pos[i]])
+            pos[i] += 1
+        run_pk(pk, {"layer": "E", "class": cname, "variant": "full_duplex", "schedule": "".join("cs"[i] for i in sched), "reordered": False}, conn=conn2)
     # wrapping initial sequence numbers
     for isn in ((1 << 32) - 2, (1 << 32) - 200, (1 << 32) - 700):
         pk = scen.tls_packets(conn, isn=(isn, isn - 5), mss=300)
